@@ -90,6 +90,7 @@ type PathState struct {
 	mayPanicDepth int
 	eventsOff bool
 	sites     map[*mergeSite]*siteStat
+	masks     map[*Term]bset
 }
 
 type task struct {
@@ -297,8 +298,9 @@ func (wk *Worker) record(h int, res PathResult) {
 func (wk *Worker) runPath(t task) (res PathResult) {
 	it := wk.it
 	fn := wk.ex.harness[t.h]
-	ps := &PathState{harness: fn.Name(), prefix: t.prefix, domains: map[int]*bset{}, entangled: map[int]bool{}, symW: map[int]uint8{}, vioSeen: map[string]bool{}, sites: map[*mergeSite]*siteStat{}}
+	ps := &PathState{harness: fn.Name(), prefix: t.prefix, domains: map[int]*bset{}, entangled: map[int]bool{}, symW: map[int]uint8{}, vioSeen: map[string]bool{}, sites: map[*mergeSite]*siteStat{}, masks: map[*Term]bset{}}
 	it.ps = ps
+	wk.solver.SymW = func(id int) uint8 { return ps.symW[id] }
 	wk.curH = t.h
 	it.epoch++
 	it.steps = 0
@@ -386,20 +388,22 @@ func (wk *Worker) flush() {
 }
 
 func (ps *PathState) evalMask(c *Term, dom *bset) bset {
-	var m bset
-	env := &evalEnv{}
-	for b := 0; b < 256; b++ {
-		if !dom.has(b) {
-			continue
+	full, ok := ps.masks[c]
+	if !ok {
+		env := &evalEnv{}
+		for b := 0; b < 256; b++ {
+			env.gen = newEvalGen()
+			bb := uint64(b)
+			env.get = func(int, uint8) uint64 { return bb }
+			if c.eval(env) != 0 {
+				full.set(b)
+			}
 		}
-		env.gen = newEvalGen()
-		bb := uint64(b)
-		env.get = func(int, uint8) uint64 { return bb }
-		if c.eval(env) != 0 {
-			m.set(b)
+		if c.size > 2 {
+			ps.masks[c] = full
 		}
 	}
-	return m
+	return full.and(*dom)
 }
 
 func (wk *Worker) addConstraint(c *Term) {
@@ -430,6 +434,7 @@ func (wk *Worker) addConstraint(c *Term) {
 func (wk *Worker) feasible2(c *Term) (ft, ff bool) {
 	ps := wk.it.ps
 	wk.flush()
+	wk.solver.Note = "branch at " + wk.it.stackString(wk.it.curFrame)
 	r := wk.solver.CheckWith(c)
 	switch r {
 	case Unsat:
@@ -461,6 +466,7 @@ func (it *Interp) branch(fr *frame, c *Term) bool {
 		panic("symbolic branch outside a path: " + c.String())
 	}
 	exact := false
+	it.curFrame = fr
 	if c.sv >= 0 {
 		if dom, ok := ps.domains[int(c.sv)]; ok {
 			tm := ps.evalMask(c, dom)
@@ -657,6 +663,7 @@ func (it *Interp) check(fr *frame, id string, c *Term) {
 	}
 	wk.flush()
 	ps.solDecided++
+	wk.solver.Note = "assert " + id + " at " + it.posString(fr)
 	r := wk.solver.CheckWith(nc)
 	if r == Unknown {
 		ps.inconclusive = append(ps.inconclusive, "solver unknown on assertion "+id)
